@@ -112,3 +112,19 @@ func VerifC16SearcherConcurrentNode() {
 		v.Cover("refer")
 	}
 }
+
+// VerifC16ConversionDecidedUnderLock: the raw -> parsed conversion of a concurrently readable
+// node is a check-then-act sequence: the test "still raw?" must be (re)made while the write
+// lock is held, otherwise two readers that both saw a raw node convert it twice (the second
+// one parses the already converted node as text). Engine rule (Freeze mode 3): a field of a
+// shared object stored inside the critical section must have been read inside it first.
+func VerifC16ConversionDecidedUnderLock() {
+	verifAstStubs()
+	root := NewRawConcurrentRead(`{"xa":1,"xb":[1,2],"k8":{"q":2}}`)
+	v.Assert(root.Check() == nil, "NewRawConcurrentRead rejects a valid object")
+	op1 := v.Concretize(v.Int("op1", 0, verifReadOps-1))
+	v.Freeze(3)
+	verifReadOp(&root, op1, "xa")
+	v.Freeze(0)
+	v.Cover("end")
+}
